@@ -2381,7 +2381,7 @@ func (e *c05Env) genHist(r *vf.Rand) c05Hist {
 		st.Env = c05CopyEnv(env)
 
 		if r.Chance(25) {
-			st.RuleCache = vf.Pick(r, []string{"0s", "1m", ""})
+			st.RuleCache = vf.Pick(r, []string{"0s", "1m", "5m", "", ""})
 			if r.Chance(40) {
 				st.Rule = &c05Exp{Algs: vf.Pick(r, [][]string{{"ES256"}, {"PS256", "ES256", "ES384"}})}
 			} else {
@@ -2525,6 +2525,11 @@ func c05HistCorpus() []c05Hist {
 
 		return st
 	}
+	ruleTTL := func(st c05HStep, ttl string) c05HStep {
+		st.Rule, st.RuleCache = &c05Exp{}, ttl
+
+		return st
+	}
 	aged := func(st c05HStep) c05HStep {
 		st.SleepMS = 2100
 
@@ -2561,6 +2566,13 @@ func c05HistCorpus() []c05Hist {
 			step(env, "tenant-a", "own", tok("tenant-a", "k1", 3)),
 			aged(step(env, "tenant-a", "own", expiring(tok("tenant-a", "k1", 3)))),
 			step(env, "tenant-a", "own", tok("tenant-a", "k1", 3)),
+		}},
+		// fix: 8647e06: rule-level copies with another cache_ttl do not share the prototype's entries
+		{Proto: proto, CacheTTL: "default", Templated: true, Steps: []c05HStep{
+			step(env, "tenant-a", "own", tok("tenant-a", "k1", 3)),
+			ruleTTL(step(rotated, "tenant-a", "own", tok("tenant-a", "k1", 4)), "1m"),
+			ruleTTL(step(rotated, "tenant-a", "previous", tok("tenant-a", "k1", 3)), "1m"),
+			step(rotated, "tenant-a", "previous", tok("tenant-a", "k1", 3)),
 		}},
 		// the same with the cache off
 		{Proto: proto, CacheTTL: "0s", Templated: true, Steps: []c05HStep{
@@ -2733,7 +2745,15 @@ func c05CoqHist(h c05Hist) string {
 			obs = "(OSubject " + vf.CoqStr(st.Obs.Sub) + ")"
 		}
 
-		steps = append(steps, vf.CoqApp("hs", cf, vf.CoqBool(st.CacheOn), vf.CoqBool(h.Templated), vf.CoqList(env),
+		// the configured cache_ttl of the copy that serves the request, as it enters the cache key (fix: 8647e06)
+		ttl := h.CacheTTL
+		if st.RuleCache != "" {
+			ttl = st.RuleCache
+		}
+
+		ttlNS := map[string]int64{"default": -1, "0s": 0, "1m": 60_000_000_000, "5m": 300_000_000_000}[ttl]
+
+		steps = append(steps, vf.CoqApp("hs", cf, vf.CoqBool(st.CacheOn), vf.CoqZ(ttlNS), vf.CoqBool(h.Templated), vf.CoqList(env),
 			vf.CoqZ(st.Obs.Now), c05CoqCred(pseudo), obs, vf.CoqBool(st.Obs.AttrsOK)))
 	}
 
@@ -2762,7 +2782,12 @@ func c05HistTags(h c05Hist) ([]string, bool) {
 	for i, st := range h.Steps {
 		tags = append(tags, "how:"+st.How, "site:"+st.Obs.Site, "out:"+c05If(st.Obs.Err == "", "accepted", st.Obs.Err))
 
-		id := c05If(h.Templated, st.Tenant, "") + "/" + st.Tok.Kid
+		ttlOf := h.CacheTTL
+		if st.RuleCache != "" {
+			ttlOf = st.RuleCache
+		}
+
+		id := c05If(h.Templated, st.Tenant, "") + "/" + ttlOf + "/" + st.Tok.Kid
 		hit := st.CacheOn && st.Tok.Kid != "" && seen[id]
 
 		if hit {
@@ -2777,7 +2802,8 @@ func c05HistTags(h c05Hist) ([]string, bool) {
 
 		if st.How == "cross" && st.Tok.Kid != "" && st.CacheOn {
 			for k := range seen {
-				if strings.HasSuffix(k, "/"+st.Tok.Kid) && k != id {
+				parts := strings.SplitN(k, "/", 3)
+				if len(parts) == 3 && parts[1] == ttlOf && parts[2] == st.Tok.Kid && parts[0] != c05If(h.Templated, st.Tenant, "") {
 					tags = append(tags, "attack:cross-tenant-kid-with-other-tenants-key-cached")
 
 					break
